@@ -33,7 +33,7 @@ def main():
             continue
         t1 = time.time()
         cx = verify_function(prog, f, Opts())
-        print('== %s  paths=%d  %.2fs  pre=%s' % (f, cx.npaths, time.time() - t1, getattr(cx, 'pre_sat', '?')))
+        print('== %s  paths=%d infeasible_ends=%d  %.2fs  pre=%s' % (f, cx.npaths, cx.infeasible_ends, time.time() - t1, getattr(cx, 'pre_sat', '?')))
         agg = {}
         for r in cx.results:
             agg.setdefault(r.name, []).append(r)
@@ -44,6 +44,8 @@ def main():
                 if r.status != 'discharged':
                     print('       ', r.status, r.note, r.text, getattr(r, 'inputs', None), getattr(r, 'trace', None))
                     break
+        unc = cx.uncovered_blocks()
+        if unc: print('   UNCOVERED:', unc)
         if cx.notes: print('   notes:', cx.notes)
         if cx.opaque_calls: print('   opaque:', sorted(cx.opaque_calls))
         if cx.assumed_used: print('   assumed:', sorted(cx.assumed_used))
